@@ -96,9 +96,11 @@ func (cs *callSet) waitAll(wd time.Duration) (hang string, inconclusive string) 
 				}
 				txt = append(txt, t)
 			}
+			atomic.StoreInt32(&eng.Tainted, 1)
 			return fmt.Sprintf("calls still pending at quiescence: %v\nmoss goroutines:\n%s", pend, strings.Join(txt, "\n--\n")), ""
 		}
 		if time.Now().After(deadline) {
+			atomic.StoreInt32(&eng.Tainted, 1)
 			return "", fmt.Sprintf("watchdog: calls %v pending but goroutines still running", pend)
 		}
 		time.Sleep(2 * time.Millisecond)
